@@ -19,7 +19,8 @@ theorem unescapeGo_plain (s : Name) (h : 38 ∉ s) : unescapeGo none s = some s 
     simp [unescapeGo, hc, ih hr]
 
 theorem getAttr_single (k : Name) (h : 38 ∉ k) : getAttr sName [(sName, k)] = .ok k := by
-  simp [getAttr, getAttrAux, unescape, unescapeGo_plain k h]
+  have hne : ¬ sName = [] := by decide
+  simp [getAttr, getAttrAux, unescape, unescapeGo_plain k h, hne]
 
 theorem set_append_of_none {κ α : Type} [DecidableEq κ] (m : List (κ × α)) (x : κ) (v : α)
     (h : get? m x = none) : set m x v = m ++ [(x, v)] := by
@@ -237,9 +238,9 @@ theorem unescape_length {raw s : List Nat} (h : unescape raw = some s) : s.lengt
   have := unescapeGo_length none raw s h
   simpa using this
 
-theorem getAttrAux_length (key : Name) (seen : List Name) (a : List Attr) (s : Name) (V : Nat)
-    (hV : ∀ kv ∈ a, kv.2.length ≤ V) (h : getAttrAux key seen a = .ok s) : s.length ≤ V := by
-  induction a generalizing seen with
+theorem getAttrAux_length (key : Name) (a : List Attr) (s : Name) (V : Nat)
+    (hV : ∀ kv ∈ a, kv.2.length ≤ V) (h : getAttrAux key a = .ok s) : s.length ≤ V := by
+  induction a with
   | nil => simp [getAttrAux] at h
   | cons kv rest ih =>
     obtain ⟨k, v⟩ := kv
@@ -254,11 +255,11 @@ theorem getAttrAux_length (key : Name) (seen : List Name) (a : List Attr) (s : N
           have := hV (k, v) (by simp)
           simp at this; omega
         · cases h
-      · exact ih (k :: seen) (fun kv hkv => hV kv (List.mem_cons_of_mem _ hkv)) h
+      · exact ih (fun kv hkv => hV kv (List.mem_cons_of_mem _ hkv)) h
 
 theorem getAttr_length {key : Name} {a : List Attr} {s : Name} {V : Nat}
     (hV : ∀ kv ∈ a, kv.2.length ≤ V) (h : getAttr key a = .ok s) : s.length ≤ V :=
-  getAttrAux_length key [] a s V hV h
+  getAttrAux_length key a s V hV h
 
 theorem afterLast_length_le (sep : Nat) (s : Name) : (afterLast sep s).length ≤ s.length := by
   have aux : ∀ (t acc : Name),
@@ -284,12 +285,17 @@ theorem outPath_length_le (pk f : Name) : (outPath pk f).length ≤ pk.length + 
   have := (List.dropWhile_sublist (fun x => decide (x = cSlash)) (l := pk ++ cSlash :: f)).length_le
   simp at this ⊢; omega
 
-theorem sourceFileOf_length_le (a : List Attr) (top : Name) (V : Nat) (hV : ∀ kv ∈ a, kv.2.length ≤ V)
-    (ht : top.length ≤ V) : (sourceFileOf a top).length ≤ V + 5 := by
-  unfold sourceFileOf
-  split
-  · next f hf => have := getAttr_length hV hf; omega
-  · simp [sDotJava]; omega
+theorem sourceFileOf_length_le (a : List Attr) (top file : Name) (V : Nat)
+    (hV : ∀ kv ∈ a, kv.2.length ≤ V) (ht : top.length ≤ V) (h : sourceFileOf a top = .ok file) :
+    file.length ≤ V + 5 := by
+  unfold sourceFileOf at h
+  split at h
+  · next f hf =>
+    simp only [Except.ok.injEq] at h; subst h
+    have := getAttr_length hV hf; omega
+  · simp only [Except.ok.injEq] at h; subst h
+    simp [sDotJava]; omega
+  · cases h
 
 def AttrsLe (V : Nat) (e : XmlEvent) : Prop := ∀ kv ∈ evAttrs e, kv.2.length ≤ V
 def AllLe (V : Nat) (evs : List XmlEvent) : Prop := ∀ e ∈ evs, AttrsLe V e
@@ -491,20 +497,24 @@ theorem packageLoop_names (cap : Nat) (pk : Name) (V fuel : Nat) (evs : List Xml
             have hq := getAttr_length ha hfq
             have hcls := afterLast_length_le cSlash fq
             have htop := beforeFirst_length_le cDollar (afterLast cSlash fq)
-            cases hc : classLoop (afterLast cSlash fq) fuel r [] with
-            | ok xr =>
-              obtain ⟨fns, r1⟩ := xr
-              simp only [hc] at h
-              have h1 := classLoop_names (afterLast cSlash fq) V fuel r [] fns r1 hr (by intro f hf; cases hf) hc
-              refine ih r1 _ h1.1 ?_ h
-              apply addClass_names V m _ fns hm
-              · exact sourceFileOf_length_le a _ V ha (by omega)
-              · intro f hf
-                have := h1.2 f hf
-                omega
-            | err k => simp [hc] at h
-            | alloc => simp [hc] at h
-            | diverge => simp [hc] at h
+            cases hsf : sourceFileOf a (beforeFirst cDollar (afterLast cSlash fq)) with
+            | error k => simp [hsf] at h
+            | ok file =>
+              simp only [hsf] at h
+              cases hc : classLoop (afterLast cSlash fq) fuel r [] with
+              | ok xr =>
+                obtain ⟨fns, r1⟩ := xr
+                simp only [hc] at h
+                have h1 := classLoop_names (afterLast cSlash fq) V fuel r [] fns r1 hr (by intro f hf; cases hf) hc
+                refine ih r1 _ h1.1 ?_ h
+                apply addClass_names V m file fns hm
+                · exact sourceFileOf_length_le a _ file V ha (by omega) hsf
+                · intro f hf
+                  have := h1.2 f hf
+                  omega
+              | err k => simp [hc] at h
+              | alloc => simp [hc] at h
+              | diverge => simp [hc] at h
           · cases h
         · split at h
           · split at h
